@@ -54,11 +54,19 @@ TRANS_RULE = (" transport-schedules: 2-4 goroutines calling Dispatch / AddSubscr
               "order, replay = exactly what follows the requested id (gap-free prefix if cut), real-time order, mandatory/forbidden deliveries by time-stamps, Close semantics.")
 RACE_STAGE = {"kind": "race", "name": "race-stress", "dur": {"quick": "3s", "thorough": "60s"}}
 
+SUBEV_STAGE = {"kind": "cases", "name": "subscription-events", "driver": "SUBEV", "n": {"quick": 150, "thorough": 3000}}
+SUBEV_RULE = (" subscription-events: hubs with subscription tracking on (every 7th: off), both transports; a watcher receiving every private update and one authorized "
+              "for the events of a single selector; 1-4 subscribers with 1-4 selectors over {plain, template, space, non-ASCII, '/?#', '%', '+', '*', '..', already-escaped}, "
+              "duplicates, tokens with and without payload, leaving or staying; judged: every event's document id = the escaped URL (Coq sub_url), exactly one "
+              "active=true / active=false per (subscriber, selector) in that order, payload and type, the restricted watcher sees exactly its selector's events.")
+
 PROPS = {
+    "C17": {"stages": [SUBEV_STAGE, HUB_STAGE], "rule": SUBEV_RULE + " hub-histories: " + HUB_RULE, "trusted": HUB_TRUST + ["encoding/json document layout"],
+            "assumptions": ["the hub is not closed while events are due (a closed transport refuses the dispatch of the event itself)"]},
     "C01": {"binaries": ["verifh", "verifs"],
-            "stages": [HUB_STAGE, TRANS_STAGE, {"kind": "cases", "name": "index", "driver": "C05", "n": {"quick": 800, "thorough": 10000}}],
+            "stages": [HUB_STAGE, TRANS_STAGE, SUBEV_STAGE, {"kind": "cases", "name": "index", "driver": "C05", "n": {"quick": 800, "thorough": 10000}}],
             "rule": HUB_RULE + TRANS_RULE + " index: the operation histories of C05 against the real SubscriberList (private bit, claims, topics with the delimiter / escape characters): "
-                    "who is handed a private update is decided there.", "trusted": HUB_TRUST + ["matching itself: C05/C11; token verification: C03"], "assumptions": []},
+                    "who is handed a private update is decided there." + SUBEV_RULE, "trusted": HUB_TRUST + ["matching itself: C05/C11; token verification: C03"], "assumptions": []},
     "C09": {"stages": [HUB_STAGE], "rule": HUB_RULE + " (kill -9 crash points are not exercised by this stage: restart here is a graceful stop)",
             "trusted": HUB_TRUST + ["process death and power loss: bbolt's commit protocol is trusted, not exercised"], "assumptions": []},
     "C15": {"binaries": ["verifh", "verifs"], "stages": [HUB_STAGE, TRANS_STAGE], "rule": HUB_RULE + TRANS_RULE, "trusted": HUB_TRUST, "assumptions": []},
